@@ -8,6 +8,7 @@ CONSTANTS
   BugInitEmpty = FALSE
   BugStaleInit = FALSE
   BugRelinkDrop = FALSE
+  BugNoRepub = FALSE
   WSet <- MCWSet
   Gen = TRUE
 CHECK_DEADLOCK FALSE
